@@ -165,7 +165,9 @@ func (c *dataCopy) RequiredGas(input []byte) uint64 {
 	return uint64(len(input)+31)/32*IdentityPerWordGas + IdentityBaseGas
 }
 func (c *dataCopy) Run(in []byte) ([]byte, error) {
-	return in, nil
+	// the input aliases the caller's memory: hand back a copy, the return data must not
+	// change when the output is written over the input region
+	return common.CopyBytes(in), nil
 }
 
 // bigModExp implements a native big integer exponential modular operation.
